@@ -28,6 +28,7 @@ import (
 	"net/url"
 	"os"
 	"strings"
+	"sync"
 	"time"
 	"unicode"
 
@@ -124,9 +125,23 @@ var c15PortRand = rand.New(rand.NewSource(int64(os.Getpid())*7919 + 17))
 
 // c15FreePort picks a port on host that is free right now, below the kernel's ephemeral range
 // (32768-60999 here), so that no other process's bind to port 0 can take it in the meantime.
+var (
+	c15PortMu   sync.Mutex
+	c15PortUsed = map[int]bool{} // never hand out the same port twice in one process: two "free" addresses of one history must differ
+)
+
 func c15FreePort(host string) int {
-	for try := 0; try < 200; try++ {
+	c15PortMu.Lock()
+	defer c15PortMu.Unlock()
+	if len(c15PortUsed) > 8000 { // ports handed out long ago have been released by now
+		c15PortUsed = map[int]bool{}
+	}
+	for try := 0; try < 400; try++ {
 		p := 20000 + c15PortRand.Intn(12000)
+		if c15PortUsed[p] {
+			continue
+		}
+		c15PortUsed[p] = true
 		ln, err := net.Listen("tcp", fmt.Sprintf("%s:%d", host, p))
 		if err != nil {
 			continue
